@@ -122,7 +122,7 @@ class Executor:
             if self.scn.has_resolver(fq):
                 self.out.calls.append((path, id(source), C.freeze(args)))
                 fault = self.scn.faults.get(path)
-                if fault in ("raise", "raise_te", "raise_te_ctor", "return_exc", "raise_shared", "raise_shared_plain", "raise_multi", "raise_msgattr", "raise_te_enriched", "raise_coercible", "raise_multi_shared"):
+                if fault in ("raise", "raise_te", "raise_te_ctor", "return_exc", "raise_shared", "raise_shared_plain", "raise_multi", "raise_msgattr", "raise_te_enriched", "raise_coercible", "raise_multi_shared", "raise_keyerror"):
                     self.fail(path, nodes)
                 if fault == "none":
                     v = None
